@@ -8,23 +8,39 @@ RULE = ("(a) CellWrapper.fit alone, bounded-exhaustive: 1-3 columns x one row of
         "maximum width from the number of columns to 29 (quick) / 45 (thorough), plus random cell lists whose count is not a multiple "
         "of the column count; (b) whole tables: 1-6 columns x 1-6 rows, cells = word sequences of total length 0..1500 (over-long "
         "words, hyphenated words, punctuation, runs of blanks, empty cells), header or not, ascii / solid / borderless / compact, "
-        "per-column alignments, terminal widths 20..200, indentation 0..8, ANSI and plain output - tag-free cells are compared with "
-        "the model byte for byte, cells with style tags go through the oracle only; non-trivial = a table in which at least one "
-        "cell was wrapped; distinct by (cells, style, width, indentation)")
-THEOREMS = ["fit_total_and_bounded", "render_total", "table_rect", "table_keeps_text", "short_split_leaves_room"]
+        "per-column alignments, terminal widths 20..200, indentation 0..8, ANSI and plain output, compared with the model byte "
+        "for byte (text, column widths, wrapped rows, flags); (c) the same tables with style-tagged cells (registered tags, nested "
+        "tags, inline styles, a tag over several words, escaped tags, a lone '<'), on a plain formatter, a forced ANSI formatter "
+        "and an ANSI formatter that is not forced on a stream without ANSI support: compared with the model in the same way "
+        "whenever no cell holding '<' has to be wrapped (observed on the implementation: the cell reaches textwrap); (d) tables "
+        "with unbalanced or invalid markup (a tag left open, closed in another cell, an unknown colour): model comparison only; "
+        "non-trivial = a table in which at least one cell was wrapped; distinct by (cells, style, width, indentation)")
+THEOREMS = ["fit_total_and_bounded", "render_total", "table_rect", "table_keeps_text", "short_split_leaves_room",
+            "render_f_tag_free", "table_visible_commutes", "table_rect_tagged", "table_keeps_text_tagged",
+            "cell_line_in_its_column"]
 TRUSTED = ["the share int(round(length / actual * available)) is computed in floating point by the code; the model takes the rounding "
            "function as a parameter (theorems hold for every function) and ocaml/driver.ml instantiates it with the same IEEE-double "
            "division, multiplication and round-half-even",
            "textwrap.wrap is modelled by Model/Wrap.v (compared with CPython's on every run by C13 and here through every wrapped cell)",
            "wrapped rows / column lengths are read from Table._get_cell_wrapper (private, no source change)"]
-ASSUMPTIONS = ["model comparison: cells contain no '<' (no style tags), no tab, no line break and no non-ASCII word character other than "
-               "letters; tagged cells are judged by the oracle alone",
+ASSUMPTIONS = ["model comparison: cells contain no tab, no line break and no non-ASCII word character other than letters; a table in "
+               "which a cell holding '<' has to be wrapped is outside the model (Err (Other 20): the recorded finding) and judged by "
+               "the oracle alone",
+               "the Style objects of the table style (border style, cell style, header cell style) are None, as in every predefined "
+               "TableStyle (asserted on every case)",
                "every row has the table's number of columns (Table.add_row enforces it)"]
 
 SGR = re.compile("\x1b\\[[0-9;]*m")
 WORDS = ["a", "bb", "ccc", "word", "longer", "supercalifragilistic", "x" * 40, "hy-phen", "1,5", "well-known-fact", "é", "end.", "(par)",
          "y" * 23, "don't", "a--b", "42", "Q?"]
-TAGGED = ["<b>bold</b>", "<info>tag</info>", "<c1>x</c1>", "<error>problem</error>"]
+TAGGED = ["<b>bold</b>", "<info>tag</info>", "<c1>x</c1>", "<error>problem</error>",
+          "<b>bold <info>in</info> out</b>", "<u><c2>deep</c2></u>",                        # nested
+          "<fg=red>x</>", "<fg=green;options=bold>ok</>", "<bg=blue;fg=white>inv</>",       # inline styles
+          "<b>two words</b>", "<comment>a tag over four words</comment>",                   # one tag, several words
+          "\\<b>x", "\\\\<b>x", "a \\< b", "\\<info>lit\\</info>",                              # escaped: shown as text
+          "1<2", "<nosuchtag>", "a <- b"]                                                   # '<' that is not markup
+# markup that leaves the style stack changed, closes what another cell opened, or makes the formatter raise
+UNBALANCED = ["<b>open", "</b>", "shut</info>", "<info>left", "<b>x</u>", "<fg=nope>y</>", "<b><u>two", "</>", "x</>"]
 STYLES = ["ascii", "solid", "borderless", "compact"]
 
 
@@ -33,11 +49,16 @@ def rand_cell(rng, tagged=False):
     if r < 0.1:
         return ""
     n = rng.choice([1, 1, 2, 3, 5, 10, 40, 150])
-    words = WORDS + (TAGGED * 2 if tagged else [])
+    if tagged and rng.random() < 0.8:
+        n = rng.choice([1, 1, 2, 3])
+    words = WORDS + (TAGGED * 2 if tagged else []) + (UNBALANCED if tagged == "unbalanced" else [])
     seps = [" ", " ", " ", "  "]
     out = rng.choice(words)
     for _ in range(n - 1):
-        out += rng.choice(seps) + rng.choice(words)
+        nxt = rng.choice(seps) + rng.choice(words)
+        if tagged and len(out) + len(nxt) > 1500:
+            break                                  # a tagged cell is not cut in the middle of a tag
+        out += nxt
     if rng.random() < 0.1:
         out += "  "
     if rng.random() < 0.05:
@@ -53,8 +74,36 @@ def rand_table(rng, tagged=False):
     if rng.random() < 0.6:
         for _ in range(rng.randint(1, ncol)):
             aligns.append(rng.choice([0, 1, 2]))
-    return {"k": 2 if tagged else 0, "n": ncol, "rows": rows, "header": header, "style": rng.choice(STYLES), "aligns": aligns,
-            "default": rng.choice([0, 0, 0, 1, 2]), "W": rng.randint(20, 200), "ind": rng.randint(0, 8), "ansi": rng.randint(0, 1)}
+    if tagged and header is not None and rng.random() < 0.3:
+        header[rng.randrange(ncol)] = rng.choice(TAGGED)
+    return {"k": (3 if tagged == "unbalanced" else 2) if tagged else 0, "n": ncol, "rows": rows, "header": header, "style": rng.choice(STYLES),
+            "aligns": aligns, "default": rng.choice([0, 0, 0, 1, 2]), "W": rng.randint(20, 200), "ind": rng.randint(0, 8),
+            "ansi": rng.randint(0, 2) if tagged else rng.randint(0, 1)}     # 0 plain, 1 ANSI forced, 2 ANSI not forced (stream without ANSI)
+
+
+def mixed_table(rng):
+    """short tagged cells in some columns, long tag-free text in the others: the tag-free columns are wrapped, the tagged ones are not"""
+    t = rand_table(rng, tagged=True)
+    ncol = t["n"]
+    tagged_cols = [j for j in range(ncol) if rng.random() < 0.5] or [0]
+    for r in t["rows"]:
+        for j in range(ncol):
+            if j in tagged_cols:
+                r[j] = " ".join(rng.choice(TAGGED) for _ in range(rng.choice([1, 1, 2])))
+            else:
+                r[j] = rand_cell(rng) if rng.random() < 0.7 else " ".join(rng.choice(WORDS) for _ in range(rng.choice([10, 25, 60])))
+    t["W"] = rng.randint(40, 160)
+    return t
+
+
+def fixed_tagged_tables():
+    """every tagged / escaped cell kind once in a small table that fits, per style and formatter"""
+    out = []
+    for i, cell in enumerate(TAGGED):
+        for ansi in (0, 1, 2):
+            out.append({"k": 2, "n": 2, "rows": [[cell, "plain"], ["abcdef", TAGGED[(i + 1) % len(TAGGED)]]], "header": ["H", "<b>Head</b>"] if i % 2 else None,
+                        "style": STYLES[i % 4], "aligns": [i % 3], "default": 0, "W": 80, "ind": i % 3, "ansi": ansi})
+    return out
 
 
 def text_of_len(n):
@@ -90,10 +139,22 @@ def gen(rng, tier, info):
         t["W"] = rng.randint(4, 40)
         cases.append(t)
     n_tab = len(cases)
-    for _ in range({"quick": 800, "thorough": 8000, "search": 200}[tier]):
-        cases.append(rand_table(rng, tagged=True))
+    cases.extend(fixed_tagged_tables())
+    for i in range({"quick": 1500, "thorough": 15000, "search": 300}[tier]):
+        t = rand_table(rng, tagged=True)
+        if i % 3 == 0:
+            t["W"] = rng.randint(120, 400)          # wide terminals: most of these fit without wrapping
+        if i % 3 == 1:
+            t = mixed_table(rng)
+        cases.append(t)
+    n_tag = len(cases)
+    for _ in range({"quick": 400, "thorough": 4000, "search": 100}[tier]):
+        t = rand_table(rng, tagged="unbalanced")
+        t["W"] = rng.randint(60, 400)
+        cases.append(t)
     info["exhaustive"] = True
-    info["distribution"] = {"fit_exhaustive": n_ex, "fit_random": n_fit - n_ex, "tables_tag_free": n_tab - n_fit, "tables_tagged_oracle_only": len(cases) - n_tab}
+    info["distribution"] = {"fit_exhaustive": n_ex, "fit_random": n_fit - n_ex, "tables_tag_free": n_tab - n_fit, "tables_tagged": n_tag - n_tab,
+                            "tables_unbalanced_markup_model_only": len(cases) - n_tag}
     return cases
 
 
@@ -133,12 +194,30 @@ def wire_style(c):
     return [[S(x) for x in bs], S(hp), S(hs), S(cp), S(cs), S(st.padding_char), list(st.column_alignments), st.default_column_alignment]
 
 
+_SET = []
+
+
+def style_set():
+    """the default style set as read from the live DefaultStyleSet"""
+    if not _SET:
+        _src()
+        from clikit.formatter.default_style_set import DefaultStyleSet
+        o = lambda v: [] if v is None else [S(v)]
+        for tag, st in DefaultStyleSet().styles.items():
+            _SET.append([o(st.tag), o(st.foreground_color), o(st.background_color), int(st.is_bold()), int(st.is_italic()), int(st.is_dark()),
+                         int(st.is_underlined()), int(st.is_blinking()), int(st.is_inverse()), int(st.is_hidden())])
+    return _SET
+
+
+FKIND = {0: 2, 1: 1, 2: 0}     # case "ansi" -> Model/OutputM.dec_fkind: 2 plain, 1 ANSI forced, 0 ANSI
+
+
 def wire(c):
+    # the formatter: kind, stream supports ANSI (a BufferedIO does not), style set
     if c["k"] == 1:
-        return [1, c["max"], c["n"], [S(x) for x in c["cells"]]]
-    if c["k"] == 2:
-        return [9]
-    return [0, c["W"], c["ind"], c["n"], wire_style(c), [S(x) for x in (c["header"] or [])], [[S(x) for x in r] for r in c["rows"]]]
+        return [1, c["max"], c["n"], [S(x) for x in c["cells"]], 2, 0, style_set()]
+    return [0, c["W"], c["ind"], c["n"], wire_style(c), [S(x) for x in (c["header"] or [])], [[S(x) for x in r] for r in c["rows"]],
+            FKIND[c["ansi"]], 0, style_set()]
 
 
 def describe(c):
@@ -146,15 +225,45 @@ def describe(c):
         return "CellWrapper().add_cells(%r).fit(%d, %d, PlainFormatter())" % (c["cells"], c["max"], c["n"])
     return ("Table(TableStyle.%s() with alignments %r, default %d)%s.add_rows(%r).render(io, %d) at terminal width %d, %s" % (
         c["style"], c["aligns"], c["default"], "" if c["header"] is None else ".set_header_row(%r)" % (c["header"],), c["rows"], c["ind"], c["W"],
-        "ANSI" if c["ansi"] else "plain"))
+        ["plain", "ANSI (forced)", "AnsiFormatter() not forced, stream without ANSI"][c["ansi"]]))
 
 
 def enc_wrapper(w):
     return [list(w.column_lengths), [[S(x) for x in r] for r in w.wrapped_rows], int(w.has_word_wraps()), int(w.has_word_cuts())]
 
 
+TAG_WRAP = [False]
+
+
+def watch_wrapping():
+    """note when CellWrapper._wrap_column reaches a cell holding '<' (get_max_word_length or textwrap.wrap is handed one)"""
+    from clikit.ui.components import cell_wrapper as cw
+    if getattr(cw, "_verif_watch", False):
+        return
+    import textwrap as tw
+    real_gmw = cw.get_max_word_length
+
+    def gmw(string, formatter=None):
+        if "<" in string:
+            TAG_WRAP[0] = True
+        return real_gmw(string, formatter)
+
+    class TW(object):
+        @staticmethod
+        def wrap(text, width, **kw):
+            if "<" in text:
+                TAG_WRAP[0] = True
+            return tw.wrap(text, width, **kw)
+
+    cw.get_max_word_length = gmw
+    cw.textwrap = TW
+    cw._verif_watch = True
+
+
 def run_impl(c):
     from clikit.formatter import AnsiFormatter, PlainFormatter
+    watch_wrapping()
+    TAG_WRAP[0] = False
     if c["k"] == 1:
         from clikit.ui.components import CellWrapper
         w = CellWrapper()
@@ -172,12 +281,15 @@ def run_impl(c):
     if c["header"] is not None:
         t.set_header_row(list(c["header"]))
     t.add_rows([list(r) for r in c["rows"]])
-    io = BufferedIO(formatter=AnsiFormatter(forced=True) if c["ansi"] else PlainFormatter())
+    io = BufferedIO(formatter=[PlainFormatter, lambda: AnsiFormatter(forced=True), AnsiFormatter][c["ansi"]]())
+    assert not io.output.stream.supports_ansi()
     io.set_terminal_dimensions(Rectangle(c["W"], 50))
     before = (copy.deepcopy(t._rows), copy.deepcopy(t._header_row), t._nb_columns, list(st.column_alignments))
     exc = max(len(st.header_cell_format.format("")), len(st.cell_format.format("")))
+    # the wrapper is looked at on a formatter of its own (measuring cells moves the style stack when markup is unbalanced)
+    io2 = BufferedIO(formatter=[PlainFormatter, lambda: AnsiFormatter(forced=True), AnsiFormatter][c["ansi"]]())
     try:
-        w = t._get_cell_wrapper(io, c["W"], exc, c["ind"])
+        w = t._get_cell_wrapper(io2, c["W"], exc, c["ind"])
         wr = enc_wrapper(w)
         lines_per_row = [max(len(x.split("\n")) for x in r) if r else 0 for r in w.wrapped_rows]
     except Exception as e:  # noqa
@@ -187,6 +299,7 @@ def run_impl(c):
         page = [0, S(io.fetch_output())]
     except Exception as e:  # noqa
         page = err(e)
+    tag_wrap = int(TAG_WRAP[0])
     after = (t._rows, t._header_row, t._nb_columns, list(st.column_alignments))
     # twice: the same text again
     same = 1
@@ -197,18 +310,27 @@ def run_impl(c):
             same = int(io.fetch_output() == first + first)
         except Exception:  # noqa
             same = 0
-    return [wr, page, int(before == after), same, lines_per_row]
+    return [wr, page, int(before == after), same, lines_per_row, tag_wrap]
+
+
+OUTSIDE = [-20]
 
 
 def canon_impl(c, o):
     if c["k"] == 1:
         return o
-    if c["k"] == 2:
-        return [-999]
     wr, page = o[0], o[1]
+    if o[5]:
+        return OUTSIDE                 # a cell holding '<' reached textwrap: the recorded finding's territory
     if page[0] != 0:
         return page
     return [0, wr + [page[1], 1]]      # 1: the model found the style well-formed (wf_styleb, hypothesis of table_rect)
+
+
+def canon_model(c, m):
+    if m == [-1, 120]:                 # Err (Other 20): a cell holding '<' would have to be wrapped
+        return OUTSIDE
+    return m
 
 
 def geometry(c):
@@ -225,10 +347,17 @@ def plain(s):
     return PlainFormatter().remove_format(s)
 
 
+ESCAPED = re.compile(r"\\<")
+
+
 def oracle(c, o):
+    if c["k"] == 3:
+        return None                       # unbalanced / invalid markup: the property is about well-formed cells
     r = oracle0(c, o)
-    if r is not None and c["k"] == 2 and tagged_and_wrapped(c):
+    if r is not None and c["k"] == 2 and o[5]:
         return "tagged-cell-wrapped"
+    if r is not None and c["k"] == 2 and any(ESCAPED.search(x) for row in [c["header"] or []] + c["rows"] for x in row):
+        return "escaped-tag-formatted-twice"      # repaired by 4a70d2d: a regression shows up under this class
     return r
 
 
@@ -264,7 +393,7 @@ def oracle0(c, o):
     n = c["n"]
     if avail < n:
         return None                       # outside the guard: at least one character per column
-    wr, page, unchanged, same, lpr = o
+    wr, page, unchanged, same, lpr = o[:5]
     if page[0] != 0:
         return "render-raised"
     if not unchanged:
@@ -272,7 +401,7 @@ def oracle0(c, o):
     if not same:
         return "second-render-differs"
     text = unS(page[1])
-    if not c["ansi"] and "\x1b" in text:
+    if c["ansi"] != 1 and "\x1b" in text:
         return "plain-output-has-escape"
     lines = SGR.sub("", text).split("\n")
     if lines[-1] != "":
